@@ -93,6 +93,12 @@ HARMLESS = [
 ]
 
 
+MUTATIONS += [
+    ("rotation-index-sign", "shape.py", "            j = (i + rotation) % nelems", "            j = (i - rotation) % nelems", {"C05": 1}, ["is-rotation[", "filter-rotations"]),
+    ("rotation-length-check-dropped", "shape.py", "        if len(oneobj) != len(other):\n            return False\n        rotation = 0", "        if len(oneobj) < len(other):\n            return False\n        rotation = 0", {"C05": 1}, ["is-rotation[", "filter-rotations"]),
+    ("filter-rotations-compares-last-only", "shape.py", "            for fline in filtered:\n                if FollowPath.is_rotation(line, fline):", "            for fline in filtered[-1:]:\n                if FollowPath.is_rotation(line, fline):", {"C05": 1}, ["filter-rotations"]),
+]
+
 def scratch_repo():
     d = tempfile.mkdtemp(prefix="vf-selftest-")
     shutil.copytree(os.path.join(REPO, "src"), os.path.join(d, "src"))
